@@ -174,7 +174,10 @@ func main() {
 	if len(os.Args) > 1 && os.Args[1] == "kf" {
 		// print the op lines of the pinned known-finding witnesses (corpus/C04/kf-*.ops)
 		for _, k := range minigo.KnownFindings() {
-			fmt.Printf("%s\tkf %s prog %s\n", k.Key, k.Key, k.Prog.SExp())
+			fmt.Printf("kf-%s\tkf %s prog %s\n", k.Key, k.Key, k.Prog.SExp())
+		}
+		for _, k := range minigo.BoundaryCorpus() {
+			fmt.Printf("b-%s\tprog %s\n", k.Key, k.Prog.SExp())
 		}
 		return
 	}
